@@ -21,7 +21,7 @@ from engine import State  # noqa: E402
 from harness import Src, mk_map, run_async  # noqa: E402
 from summaries import OPTION  # noqa: E402
 from summaries_coll import ADDR_IS_V6, ADDR_KIND, ADDR_PORT, ADDR_V4, ADDR_V6  # noqa: E402
-from values import VArr, VEnum, VOpaque, VStr, VStruct, bv, key_bv  # noqa: E402
+from values import VArr, VEnum, VOpaque, VStr, VStruct, bv, flatten, key_bv, vmap  # noqa: E402
 
 LAYOUT = [3, 7]
 B = 2
@@ -42,9 +42,27 @@ def msk(ipbv, nbytes, total):
     return ipbv & bv(((1 << (8 * nbytes)) - 1) << (8 * (total - nbytes)), 8 * total)
 
 
+def analysis_template(eng, v6):
+    z8 = bv(0, 8)
+    opt_asn = VEnum(OPTION, z8, {0: (), 1: (bv(0, 32),)})
+    opt_country = VEnum(OPTION, z8, {0: (), 1: (VStr(bv(0, 64)),)})
+    tail = {"asn": opt_asn, "country": opt_country, "is_hosting_provider": z3.BoolVal(False), "is_vpn_provider": z3.BoolVal(False), "reputation_score": z3.FPVal(0.0, z3.Float64())}
+    if v6:
+        return c13.mk_struct(eng, "IPAnalysis", dict(tail, subnet_64=VArr([z8] * 16), subnet_48=VArr([z8] * 16), subnet_32=VArr([z8] * 16)))
+    return c13.mk_struct(eng, "IPv4Analysis", dict(tail, ip_addr=VArr([z8] * 4), subnet_24=VArr([z8] * 4), subnet_16=VArr([z8] * 4), subnet_8=VArr([z8] * 4)))
+
+
 def slots_template(eng):
-    """value template of DhtCoreEngine.diversity_slots (present only on trees that track per-peer slots)"""
-    return None
+    """value template of DhtCoreEngine.diversity_slots: HashMap<NodeId, DiversitySlots{ip: Option<UnifiedIPAnalysis>, region: Option<GeographicRegion>}>"""
+    ui = eng.enum_info("UnifiedIPAnalysis")
+    uni = VEnum(ui, bv(0, 8), {ui.index("IPv4"): (analysis_template(eng, False),), ui.index("IPv6"): (analysis_template(eng, True),)})
+    gi = eng.enum_info("GeographicRegion")
+    region = VEnum(gi, bv(0, 8), {i: () for i in range(len(gi.variants))})
+    return c13.mk_struct(eng, "DiversitySlots", {"ip": VEnum(OPTION, bv(0, 8), {0: (), 1: (uni,)}), "region": VEnum(OPTION, bv(0, 8), {0: (), 1: (region,)})})
+
+
+def tracks_slots(eng):
+    return "diversity_slots" in [f for f, _ in eng.struct_adt("DhtCoreEngine").fields]
 
 
 def build(ck, v6, preset, xb, op, src, obs=None):
@@ -89,13 +107,16 @@ def build(ck, v6, preset, xb, op, src, obs=None):
     for lbl, k in gprobes.items():
         hyps.append(z3.ULE(z3.Select(gmap0.val, k), bv(1 << 40, 64)))
     listed0 = z3.Or(*[z3.And(n[3], n[2] == xbv) for n in nodes])
+    tracked = tracks_slots(eng)
+    slots0 = src.map("S.slots", 256, slots_template(eng), {"x": xbv}) if tracked else None
+    holds0 = z3.Select(slots0.present, xbv) if tracked else z3.BoolVal(False)
     if obs is None:
         st = State()
         rt = eng.alloc(st, table)
         rE = eng.alloc(st, c13.enforcer_value(eng, cfg, size, maps0))
         rG = eng.alloc(st, VStruct([gmap0, gmax], "GeographicDiversityEnforcer"))
         sm = mk_struct_fill(eng, "SecurityMetricsCollector", {"nodes_evicted_total": src.bv("sm.evicted", 64),
-                                                               "eviction_by_reason": eng.alloc(st, mk_map(eng, "sm.by_reason", 64, bv(0, 64)))})
+                                                               "eviction_by_reason": eng.alloc(st, empty_map(64))})
         hyps.append(z3.ULT(src.bv("sm.evicted", 64), bv(1 << 62, 64)))
 
         def h_validate(e, s, args, dty, callee, m):
@@ -107,6 +128,8 @@ def build(ck, v6, preset, xb, op, src, obs=None):
         fields = {"routing_table": rt, "ip_diversity_enforcer": rE, "geographic_diversity_enforcer": rG, "node_id": local,
                   "close_group_validator": eng.alloc(st, VOpaque("validator")), "security_metrics": eng.alloc(st, sm),
                   "trust_peer_selector": VEnum(OPTION, bv(0, 8), {0: ()}), "transport": VEnum(OPTION, bv(0, 8), {0: ()})}
+        if tracked:
+            fields["diversity_slots"] = eng.alloc(st, slots0)
         re_ = eng.alloc(st, mk_struct_fill(eng, "DhtCoreEngine", fields))
         ni = c02.mk_struct(eng, "core_engine::NodeInfo", {"id": VStruct([VStruct([xbytes], "DhtKey")], "NodeId"), "address": VStr(XADDR),
                                                          "last_seen": harness_time(), "capacity": capacity(eng)})
@@ -139,7 +162,7 @@ def build(ck, v6, preset, xb, op, src, obs=None):
         pcs = {"add": z3.BoolVal(True), "after": ok}
     allkeys = [(n, k) for n, kw in c13.MAPS for k in ([others[n]] + ([keys[n]] if n in keys else []))]
     below = z3.And(*[z3.Implies(c, z3.ULT(c13.count_at(maps0[n], keys[n]), lim)) for n, lim, c in lv])
-    fresh = z3.Not(listed0)  # re-admission of a listed peer is the subject of the one-step obligations (trees that track per-peer slots)
+    fresh = z3.And(z3.Not(listed0), z3.Not(holds0))  # re-admission of a listed peer is the subject of the one-step obligations (trees that track per-peer slots)
     G = {}
     G["refused_admission_consumes_no_slot"] = ("add", z3.Implies(z3.And(fresh, z3.Not(ok)), z3.And(*[c13.same_at(maps0[n], maps1[n], k) for n, k in allkeys])))
     G["admitted_only_while_every_level_is_below_its_cap"] = ("add", z3.Implies(z3.And(ok, parsed, xbv != 0, fresh), below))
@@ -155,8 +178,237 @@ def build(ck, v6, preset, xb, op, src, obs=None):
     G[f"{what}_gives_every_slot_back"] = ("after", z3.Implies(fresh, z3.And(*[c13.same_at(maps0[n], maps2[n], k) for n, k in allkeys])))
     G[f"{what}_removes_the_peer_from_the_table"] = ("after", z3.Not(listed2))
     R = {"eng": eng, "hyps": hyps, "goals": {g: z3.Implies(pcs[w], f) for g, (w, f) in G.items()}}
-    R["reach"] = {"reach_admitted": z3.And(pcs["add"], ok, parsed, fresh, xbv != 0), "reach_refused_after_the_ip_gate": z3.And(pcs["add"], z3.Not(ok), vok, parsed, below, fresh)}
+    if xb is None:
+        R["reach"] = {"reach_ok": z3.And(pcs["add"], ok, parsed), "reach_refused": z3.And(pcs["add"], z3.Not(ok))}
+    else:
+        R["reach"] = {"reach_admitted": z3.And(pcs["add"], ok, parsed, fresh), "reach_refused_after_the_ip_gate": z3.And(pcs["add"], z3.Not(ok), vok, parsed, below, fresh)}
     return R
+
+
+def empty_map(key_width):
+    from values import VMap
+
+    ks = z3.BitVecSort(key_width)
+    return VMap(ks, z3.K(ks, z3.BoolVal(False)), z3.K(ks, bv(0, 64)), bv(0, 64), None)
+
+
+# ------------------------------------------------------------------------------------------ one inductive step (trees that track per-peer slots)
+
+V6MAPS = ["subnet_64_counts", "subnet_48_counts", "subnet_32_counts"]
+V4MAPS = ["ipv4_32_counts", "ipv4_24_counts", "ipv4_16_counts"]
+V6FIELDS = {"subnet_64_counts": "subnet_64", "subnet_48_counts": "subnet_48", "subnet_32_counts": "subnet_32"}
+V4FIELDS = {"ipv4_32_counts": "ip_addr", "ipv4_24_counts": "subnet_24", "ipv4_16_counts": "subnet_16"}
+
+
+def record_view(eng, slots, idbv):
+    """what the peer `idbv` holds according to the slots map: -> dict map-name -> (active condition, key term)"""
+    rec = vmap(slots.val, lambda a: z3.Select(a, idbv))
+    present = z3.Select(slots.present, idbv)
+    dadt = eng.struct_adt("DiversitySlots")
+    ipopt = rec.f[dadt.field_index("ip")]
+    ip_some = z3.And(present, ipopt.idx == bv(1, 8))
+    uni = ipopt.pay[1][0]
+    ui = eng.enum_info("UnifiedIPAnalysis")
+    i4, i6 = ui.index("IPv4"), ui.index("IPv6")
+    a4, a6 = uni.pay[i4][0], uni.pay[i6][0]
+    is4, is6 = z3.And(ip_some, uni.idx == bv(i4, 8)), z3.And(ip_some, uni.idx == bv(i6, 8))
+    F4 = lambda n: a4.f[eng.struct_adt("IPv4Analysis").field_index(n)]  # noqa: E731
+    F6 = lambda n: a6.f[eng.struct_adt("IPAnalysis").field_index(n)]  # noqa: E731
+    out = {}
+    for n in V6MAPS:
+        out[n] = (is6, key_bv(F6(V6FIELDS[n])))
+    for n in V4MAPS:
+        out[n] = (is4, key_bv(F4(V4FIELDS[n])))
+    asn4, asn6 = F4("asn"), F6("asn")
+    c4, c6 = F4("country"), F6("country")
+    out["asn_counts"] = (z3.Or(z3.And(is4, asn4.idx == bv(1, 8)), z3.And(is6, asn6.idx == bv(1, 8))), z3.If(is6, asn6.pay[1][0], asn4.pay[1][0]))
+    out["country_counts"] = (z3.Or(z3.And(is4, c4.idx == bv(1, 8)), z3.And(is6, c6.idx == bv(1, 8))), z3.If(is6, c6.pay[1][0].id, c4.pay[1][0].id))
+    return present, ip_some, is4, is6, out
+
+
+def wf(v):
+    """well-formedness of an arbitrary value of the template's type: every enum discriminant names a variant"""
+    out = []
+    if isinstance(v, VEnum):
+        out.append(z3.ULT(v.idx, bv(len(v.info.variants), 8)))
+        for k in v.pay:
+            for x in v.pay[k]:
+                out += wf(x)
+    elif isinstance(v, VStruct):
+        for x in v.f:
+            out += wf(x)
+    return out
+
+
+def pin_key(src, name, term):
+    """named copy of a key term (so that the native driver can probe it); byte-wise for address keys"""
+    w = term.size()
+    if w in (128,) or (w == 32 and name.split(".")[1].startswith("ipv4")):
+        n = w // 8
+        bs = [src.pin(f"{name}.{i}", z3.Extract(w - 1 - 8 * i, w - 8 - 8 * i, term)) for i in range(n)]
+        return key_bv(VArr(bs))
+    return src.pin(name, term)
+
+
+def build_step(ck, v6, preset, xb, op, src, obs=None):
+    """one call of add_node / evict_node / handle_node_failure for a peer x that may already be listed and may already hold
+    an arbitrary slot record; goals = conservation of every counter against the records, holders are listed, frame"""
+    fraction = c13.FRACTIONS[preset]
+    eng = ck.engine(unwind=260) if obs is None else ck.meta_engine()
+    eng.seq_cap = 24
+    if not tracks_slots(eng):
+        raise harness.SymError("DhtCoreEngine has no diversity_slots field: per-peer slot records are not tracked on this tree")
+    cap = src.bv("bucket_cap", 64)
+    table, nodes, lens = c02.build_table(eng, src, LAYOUT, B, max_size=cap)
+    xbytes = c02.id_in_bucket(src, "x", xb)
+    xbv = key_bv(xbytes)
+    obytes = src.bytes("o", 32)
+    obv = key_bv(obytes)
+    tmpl = slots_template(eng)
+    slots0 = src.map("S.slots", 256, tmpl, {"x": xbv, "other": obv})
+    pres0, ipsome0, _, _, held0 = record_view(eng, slots0, xbv)
+    heldkeys = {n: pin_key(src, f"held.{n}", k) for n, (_, k) in held0.items()}
+    extra = {n: {"held": k} for n, k in heldkeys.items()}
+    cfg, size, uni, keys, lv, c_some, others, probes, maps0 = c13.inputs(eng, src, v6, fraction, extra=extra)
+    kind = src.bv("x.addr_kind", 8)
+    port = src.bv("x.port", 16)
+    ip6, ip4 = src.bytes("x.ip6", 16), src.bytes("x.ip4", 4)
+    b6, b4 = key_bv(ip6), key_bv(ip4)
+    vok = src.bool("validator_ok")
+    gmax = src.bv("G.max", 64)
+    gprobes = {f"r{i}": bv(i, 8) for i in range(NREGIONS)}
+    gmap0 = src.map("G.regions", 8, bv(0, 64), gprobes)
+    parsed = z3.ULE(kind, bv(1, 8))
+    hyps = list(src.hyps) + c02.table_hyps(nodes, lens, B) + [z3.ULE(size, bv(1 << 32, 64)), z3.UGE(cap, 1), z3.ULE(cap, 8), z3.ULE(kind, bv(2, 8)), z3.UGE(port, 1), obv != xbv]
+    hyps += [z3.ULE(ln, cap) for ln in lens.values()]
+    hyps += [ADDR_KIND(XADDR) == kind, ADDR_IS_V6(XADDR) == z3.BoolVal(bool(v6)), ADDR_V6(XADDR) == b6, ADDR_V4(XADDR) == b4, ADDR_PORT(XADDR) == port]
+    hyps += [ADDR_KIND(bv(1000 + n[4], 64)) == bv(2, 8) for n in nodes]
+    if v6:
+        hyps += [keys["subnet_64_counts"] == msk(b6, 8, 16), keys["subnet_48_counts"] == msk(b6, 6, 16), keys["subnet_32_counts"] == msk(b6, 4, 16)]
+    else:
+        hyps += [keys["ipv4_32_counts"] == b4, keys["ipv4_24_counts"] == msk(b4, 3, 4), keys["ipv4_16_counts"] == msk(b4, 2, 4)]
+    hyps += [z3.Not(src.bool("a.asn_some")), z3.Not(src.bool("a.country_some")), z3.Not(src.bool("a.hosting")), z3.Not(src.bool("a.vpn"))]
+    for f in c13.CFG_FIELDS:
+        if f not in ("max_network_fraction", "enable_geolocation_check", "min_geographic_diversity"):
+            hyps.append(z3.UGE(cfg[f], 1))
+    allkeys = []
+    for n, kw in c13.MAPS:
+        for lbl, k in probes[n].items():
+            allkeys.append((n, lbl, k))
+            hyps.append(c13.inv_at(maps0[n], k))
+            hyps.append(z3.ULE(c13.count_at(maps0[n], k), bv(1 << 40, 64)))
+    for lbl, k in gprobes.items():
+        hyps.append(z3.ULE(z3.Select(gmap0.val, k), bv(1 << 40, 64)))
+        hyps.append(z3.Implies(z3.Select(gmap0.present, k), z3.UGE(z3.Select(gmap0.val, k), 1)))
+    listed0 = z3.Or(*[z3.And(n[3], n[2] == xbv) for n in nodes])
+    for idv in (xbv, obv):
+        hyps += wf(vmap(slots0.val, lambda a: z3.Select(a, idv)))
+    # pre-state invariants (re-proved below): a holder is listed, and what it holds is counted
+    hyps.append(z3.Implies(pres0, listed0))
+    for n, (act, k) in held0.items():
+        hyps.append(z3.Implies(act, z3.UGE(c13.count_at(maps0[n], heldkeys[n]), 1)))
+    if obs is None:
+        st = State()
+        rt = eng.alloc(st, table)
+        rE = eng.alloc(st, c13.enforcer_value(eng, cfg, size, maps0))
+        rG = eng.alloc(st, VStruct([gmap0, gmax], "GeographicDiversityEnforcer"))
+        rS = eng.alloc(st, slots0)
+        sm = mk_struct_fill(eng, "SecurityMetricsCollector", {"nodes_evicted_total": src.bv("sm.evicted", 64), "eviction_by_reason": eng.alloc(st, empty_map(64))})
+        hyps.append(z3.ULT(src.bv("sm.evicted", 64), bv(1 << 62, 64)))
+
+        def h_validate(e, s, args, dty, callee, m):
+            return vok
+
+        eng.summaries.insert(0, (re.compile(r"^CloseGroupValidator::validate$"), h_validate,
+                                 "CloseGroupValidator::validate -> arbitrary verdict (the close-group gate is C15's subject)"))
+        local = VStruct([VStruct([VArr([bv(0, 8)] * 32)], "DhtKey")], "NodeId")
+        fields = {"routing_table": rt, "ip_diversity_enforcer": rE, "geographic_diversity_enforcer": rG, "node_id": local, "diversity_slots": rS,
+                  "close_group_validator": eng.alloc(st, VOpaque("validator")), "security_metrics": eng.alloc(st, sm),
+                  "trust_peer_selector": VEnum(OPTION, bv(0, 8), {0: ()}), "transport": VEnum(OPTION, bv(0, 8), {0: ()})}
+        re_ = eng.alloc(st, mk_struct_fill(eng, "DhtCoreEngine", fields))
+        xid = VStruct([VStruct([xbytes], "DhtKey")], "NodeId")
+        if op == "add":
+            ni = c02.mk_struct(eng, "core_engine::NodeInfo", {"id": xid, "address": VStr(XADDR), "last_seen": harness_time(), "capacity": capacity(eng)})
+            st1, out1 = run_async(eng, ck.fn_in("DhtCoreEngine", "add_node"), [re_, ni], st)
+            ok = out1.idx == bv(0, 8)
+        elif op == "evict":
+            info = eng.enum_info("EvictionReason")
+            rej = VEnum(info, bv(info.index("CloseGroupRejection"), 8), {info.index("CloseGroupRejection"): ()})
+            st1, _ = run_async(eng, ck.fn_in("DhtCoreEngine", "evict_node"), [re_, eng.alloc(st, xid), rej], st)
+            ok = z3.BoolVal(True)
+        else:
+            st1, _ = run_async(eng, ck.fn_in("DhtCoreEngine", "handle_node_failure"), [re_, xid], st)
+            ok = z3.BoolVal(True)
+        E1 = eng.load(st1, rE)
+        maps1 = {n: c13.field(eng, E1, "IPDiversityEnforcer", n) for n, _ in c13.MAPS}
+        slots1 = eng.load(st1, rS)
+        listed1 = listed_in(eng, eng.load(st1, rt), xbv)
+        pc = st1.pc
+    else:
+        ok = z3.BoolVal(bool(obs.get("ok", True)))
+        maps1 = {n: harness.obs_map(obs, "post." + n, kw, bv(0, 64), probes[n]) for n, kw in c13.MAPS}
+        slots1 = harness.obs_map(obs, "post.slots", 256, tmpl, {"x": xbv, "other": obv})
+        listed1 = z3.BoolVal(bool(obs["listed"]))
+        pc = z3.BoolVal(True)
+    pres1, ipsome1, is41, is61, held1 = record_view(eng, slots1, xbv)
+    one = lambda c: z3.If(c, bv(1, 64), bv(0, 64))  # noqa: E731
+    cons = []
+    for n, lbl, k in allkeys:
+        h0 = z3.And(held0[n][0], held0[n][1] == k)
+        h1 = z3.And(held1[n][0], held1[n][1] == k)
+        cons.append(c13.count_at(maps1[n], k) == c13.count_at(maps0[n], k) - one(h0) + one(h1))
+    G = {}
+    G["every_counter_changes_by_exactly_what_the_peers_record_changes"] = z3.And(*cons)
+    G["counter_invariant_preserved"] = z3.And(*[c13.inv_at(maps1[n], k) for n, lbl, k in allkeys])
+    G["a_peer_that_holds_slots_is_listed"] = z3.Implies(pres1, listed1)
+    G["records_stay_well_formed"] = z3.Implies(pres1, z3.And(*wf(vmap(slots1.val, lambda a: z3.Select(a, xbv)))))
+    oth_same = []
+    for a, b_ in zip(flatten(vmap(slots0.val, lambda a: z3.Select(a, obv))), flatten(vmap(slots1.val, lambda a: z3.Select(a, obv)))):
+        oth_same.append(z3.Or(z3.fpEQ(a, b_), z3.And(z3.fpIsNaN(a), z3.fpIsNaN(b_))) if z3.is_fp(a) else a == b_)
+    G["records_of_other_peers_are_untouched"] = z3.And(z3.Select(slots1.present, obv) == z3.Select(slots0.present, obv), z3.Implies(z3.Select(slots0.present, obv), z3.And(*oth_same)))
+    if op == "add":
+        fam = is61 if v6 else is41
+        match = z3.And(*[z3.And(held1[n][0], held1[n][1] == keys[n]) for n in (V6MAPS if v6 else V4MAPS)])
+        G["recorded_slots_are_those_of_the_presented_address"] = z3.And(z3.Implies(z3.And(ok, ipsome1), z3.And(fam, match, z3.Not(held1["asn_counts"][0]), z3.Not(held1["country_counts"][0]))),
+                                                                        z3.Implies(z3.And(ok, parsed), ipsome1), z3.Implies(z3.And(ok, z3.Not(parsed)), z3.Not(ipsome1)))
+        G["admitted_peer_is_listed_and_holds_a_record"] = z3.Implies(ok, z3.And(listed1, pres1))
+        # caps are judged after the peer has given back what it held before
+        below = z3.And(*[z3.Implies(c, z3.ULT(c13.count_at(maps0[n], keys[n]) - one(z3.And(held0[n][0], held0[n][1] == keys[n])), lim)) for n, lim, c in lv])
+        G["admitted_only_while_every_level_is_below_its_cap"] = z3.Implies(z3.And(ok, parsed), below)
+        G["refused_peer_holds_nothing"] = z3.Implies(z3.And(z3.Not(ok), vok), z3.Not(pres1))
+        G["validator_refusal_changes_nothing"] = z3.Implies(z3.Not(vok), z3.And(z3.Not(ok), pres1 == pres0, listed1 == listed0))
+    else:
+        G["removed_peer_holds_nothing_and_is_not_listed"] = z3.And(z3.Not(pres1), z3.Not(listed1))
+    R = {"eng": eng, "hyps": hyps, "goals": {g: z3.Implies(pc, f) for g, f in G.items()}}
+    if op == "add":
+        R["reach"] = {"reach_readmission": z3.And(pc, ok, parsed, pres0, ipsome0), "reach_refusal_of_a_holder": z3.And(pc, z3.Not(ok), vok, pres0, ipsome0),
+                      "reach_fresh_admission": z3.And(pc, ok, parsed, z3.Not(listed0))}
+    else:
+        R["reach"] = {"reach_release": z3.And(pc, pres0, ipsome0), "reach_no_record": z3.And(pc, z3.Not(pres0), listed0)}
+    return R
+
+
+def step_cases(tier):
+    cs = [(True, "default", 3, "add"), (False, "default", 3, "add"), (True, "default", 3, "evict"), (False, "default", 3, "failure")]
+    if tier != "quick":
+        cs += [(True, "default", 3, "failure"), (False, "default", 3, "evict"), (False, "permissive", 3, "add"), (True, "testnet", 7, "add")]
+    return cs
+
+
+def register_step(ck, v6, preset, xb, op):
+    params = {"v6": v6, "preset": preset, "fraction": c13.FRACTIONS[preset], "xb": xb, "op": op, "layout": LAYOUT, "B": B}
+    tag = f"engine-step[{'v6' if v6 else 'v4'},{preset},x in {xb},{op}]"
+    src = Src()
+    R = build_step(ck, v6, preset, xb, op, src)
+    rp = harness.make_replayer(ck, "core_engine", "admission_step", lambda s, obs: build_step(ck, v6, preset, xb, op, s, obs), params)
+    ck.register_src("admission_step", params, src)
+    for g, f in R["goals"].items():
+        ck.prove(f"{tag}/{g}", R["eng"], R["hyps"], f, on_sat=rp, meta={"goal": g})
+    for g, f in R["reach"].items():
+        ck.reach(f"{tag}/{g}", R["eng"], R["hyps"], f)
+    ck.side(f"{tag}/side", R["eng"], R["hyps"], on_sat=rp)
+    ck.out.samples.append({"obligation": tag, "state": "arbitrary engine: enforcer maps, per-peer slot records (SMT arrays over 256-bit ids), routing table, geographic enforcer, validator verdict",
+                           "goals": list(R["goals"])})
 
 
 def harness_time():
@@ -209,14 +461,21 @@ def register(ck, v6, preset, xb, op):
 def register_all(ck, tier):
     for (v6, preset, xb, op) in cases(tier):
         ck.guarded(f"engine[{'v6' if v6 else 'v4'},{preset},{xb},{op}]", lambda v6=v6, preset=preset, xb=xb, op=op: register(ck, v6, preset, xb, op))
+    for (v6, preset, xb, op) in step_cases(tier):
+        ck.guarded(f"engine-step[{'v6' if v6 else 'v4'},{preset},{xb},{op}]", lambda v6=v6, preset=preset, xb=xb, op=op: register_step(ck, v6, preset, xb, op))
 
 
-BOUNDS = ["engine level: DhtCoreEngine::add_node followed by evict_node / handle_node_failure of the same peer (async fns executed as state machines, uncontended locks) from an ARBITRARY "
+BOUNDS = ["engine level, scenario: DhtCoreEngine::add_node followed by evict_node / handle_node_failure of the same peer (async fns executed as state machines, uncontended locks) from an ARBITRARY "
           "enforcer / geographic enforcer / validator verdict; routing table layout [3,7] with <= 2 peers per bucket and a symbolic bucket capacity 1..8; candidate id in bucket 3 or 9 or the local id; "
-          "address text = socket address / bare ip / unparsable, ip symbolic; no geo provider (analysis = prefix masks)"]
-OUTSIDE = ["BootstrapManager::add_peer (bootstrap-cache admission: tokio fs + join limiter)", "DhtCoreEngine::join_network (bootstrap peers bypass the gates by design)",
-           "geo providers (ASN / country / hosting flags at engine level)"]
+          "address text = socket address / bare ip / unparsable, ip symbolic; no geo provider (analysis = prefix masks)",
+          "engine level, one inductive step: add_node / evict_node / handle_node_failure of a peer that may already be listed and may already hold an ARBITRARY well-formed slot record "
+          "(per-peer records as SMT arrays over 256-bit ids): every counter changes by exactly the change of the peer's record, holders are listed, other peers' records untouched; "
+          "by induction every counter equals the number of listed peers holding that key, for histories of any length"]
+OUTSIDE = ["BootstrapManager::add_peer (bootstrap-cache admission: tokio fs + join limiter)", "DhtCoreEngine::join_network (bootstrap peers bypass the gates by design and hold no slots)",
+           "geo providers at engine level (ASN / country / hosting flags of freshly analysed addresses; arbitrary records do carry them)", "routing-table layouts other than [3,7] with <= 2 peers per bucket"]
 
 
 def rebuild(ck, driver, params):
+    if driver == "admission_step":
+        return lambda s, obs: build_step(ck, params["v6"], params["preset"], params["xb"], params["op"], s, obs)
     return lambda s, obs: build(ck, params["v6"], params["preset"], params["xb"], params["op"], s, obs)
